@@ -100,13 +100,19 @@ def build(verbose=False):
         write_coqproject()
         hsh = input_hash()
         stamp = os.path.join(CACHE, "build-%s.json" % hsh[:24])
-        if os.path.exists(stamp) and os.path.exists(os.path.join(OCAML, "modelrun")):
+        # the .vo files on disk are those of the LAST build: a stamp of an earlier build with other generated
+        # instances (a run against another source tree in between) says nothing about them
+        cur = os.path.join(CACHE, "current")
+        last = open(cur).read().strip() if os.path.exists(cur) else None
+        if last == hsh and os.path.exists(stamp) and os.path.exists(os.path.join(OCAML, "modelrun")):
             st = json.load(open(stamp))
             if all(os.path.exists(os.path.join(COQ, f[:-2] + ".vo")) == ok for f, ok in st["built"].items()):
                 st["cached"] = True
                 st["gen"] = gen_info
                 return st
         t0 = time.time()
+        if os.path.exists(cur):
+            os.remove(cur)
         forb = forbidden_scan()
         rc, log1 = sh("coq_makefile -f _CoqProject -o Makefile", cwd=COQ, timeout=120)
         rc, log2 = sh("timeout 3000 make -k -j16", cwd=COQ, timeout=3100)
@@ -138,6 +144,7 @@ def build(verbose=False):
               "forbidden": forb, "hash": hsh, "seconds": time.time() - t0, "runner_ok": rc3 == 0,
               "cached": False}
         json.dump(st, open(stamp, "w"))
+        open(cur, "w").write(hsh)
         st["gen"] = gen_info
         return st
     finally:
